@@ -1,19 +1,342 @@
-//! C01 (stub, to be filled in)
+//! C01 - arbitrary input is processed totally: no panic, overflow, hang or internal error.
+//! The simulator's contribution: every message reaches the instrument through a transport that
+//! damages it in flight, and handlers pull parameters through every typed conversion and drive
+//! the list iterators. Only universal invariants are checked (they hold for any bytes).
+
+use crate::exec::{SendObs, World};
+use crate::gen::*;
+use crate::model::*;
+use crate::msg::*;
 use crate::props::*;
+use crate::rng::{mix, Rng};
 use crate::runner::{Finding, Prop, Tier};
 use crate::stats::Stats;
+use crate::tree::gen_tree;
 use crate::types::*;
 
 pub struct C01;
 
-impl Prop for C01 {
-    fn id(&self) -> &'static str { "C01" }
-    fn level(&self) -> &'static str { "exploration" }
-    fn rule(&self) -> &'static str { "" }
-    fn assumptions(&self) -> Vec<String> { vec![] }
-    fn runs(&self, _tier: Tier) -> u64 { 0 }
-    fn gen(&self, seed: u64, run: u64, _tier: Tier) -> Trace {
-        base_trace("C01", seed, run, "", Config { queue: QueueCfg::Vec, controllers: 1, tree: TreeDesc::default() })
+const BOUND_LITERALS: &[&str] = &[
+    "127", "128", "-128", "-129", "255", "256", "32767", "32768", "-32768", "-32769", "65535", "65536", "2147483647", "2147483648",
+    "-2147483648", "-2147483649", "4294967295", "4294967296", "9223372036854775807", "9223372036854775808", "-9223372036854775808",
+    "-9223372036854775809", "18446744073709551615", "18446744073709551616", "9223372036854775807.0", "18446744073709551615.0",
+    "-9223372036854775808.0", "9.3e18", "1.9e19", "-9.3e18", "255.4", "255.5", "-0.4", "-0.5", "-128.4", "-128.6", "127.5", "65535.5", "4294967295.5",
+    "2147483647.5", "0.0", "-0", ".0", "0e0", "1e-320", "1e40", "1e400", "-1e400", "4503599627370497.0", "1e19", "1.8446744073709552e19",
+    "9.223372036854775807e18", "340282350000000000000000000000000000000", "1e38", "3.5e38", "99999999999999999999999999999",
+    "0.49999999999999994", "32767.5", "-32768.5", "8388608.5", "16777217",
+];
+
+const LIST_EXPRS: &[&str] = &[
+    "@1,2,3:5", "@1!2!3", "@1!!2", "@1!!", "@!", "@1!", "@", "@1:2:3", "@1!2:3", "@\"path\"", "@'p''q'", "@\"open", "@1,,2", "@,1", "@1,", "@-1:+2", "@1:",
+    "@:", "@+", "@1!2!3:4!5!6", "@1!2,3!4!5", "@9999999999999999999999", "@1!9223372036854775808", "@a", "@1 2", "@\"a\"\"b\",1", "@\"x\"y",
+    "1,2,3:5", "-1.5e3:+2", "1-2", "1,,2", ",1", "1,", "1:2:3", "+", "-", ".", "1e", "1:", ":1", "1.5E+", "1 ,2", "a", "", "1,2:", "1e400,2", "0.0:0.0",
+    "1!2", "@1e5", "@1.5", "@-", "@+!-", "@1!+", "@--1", "@1!-!2",
+];
+
+fn c01_elem(rng: &mut Rng, uniq: &mut u32) -> Elem {
+    match rng.below(10) {
+        0 | 1 => Elem::Dec(rng.pick(BOUND_LITERALS).to_string()),
+        2 | 3 => Elem::Expr(B::from(*rng.pick(LIST_EXPRS))),
+        4 => {
+            // mutated list expression
+            let mut b: Vec<u8> = rng.pick(LIST_EXPRS).as_bytes().to_vec();
+            if !b.is_empty() {
+                let p = rng.usize_below(b.len());
+                b[p] = *rng.pick(&[b'!', b':', b',', b'@', b'1', b'-', b'+', b'"', b'.', b'e', b' ']);
+            }
+            b.retain(|c| !matches!(*c, b'(' | b')' | b';' | b'\''));
+            Elem::Expr(B(b))
+        }
+        5 => Elem::DecSuf {
+            num: rng.pick(BOUND_LITERALS).to_string(),
+            ws: B::from(*rng.pick(&["", " "])),
+            suf: rng
+                .pick(&["V", "MV", "KV", "VPK", "VPP", "VRMS", "DBV", "DBMV", "DB", "S", "MS", "MIN", "HZ", "MHZ", "PCT", "PPM", "PK", "PP", "RMS", "K", "XYZ"])
+                .to_string(),
+        },
+        6 => Elem::Chr(
+            rng.pick(&[
+                "MAX", "MIN", "MAXimum", "MINIMUM", "DEF", "DEFault", "UP", "DOWN", "INF", "NINF", "NAN", "ON", "OFF", "ONCE", "BIN", "REAL", "ASCii", "CHAN2", "CHANNEL",
+                "ascii1", "maxi",
+            ])
+            .to_string(),
+        ),
+        7 => Elem::Blk {
+            payload: B(vec![0xff, 0xfe, b'a', 0x80]),
+            pad: 0,
+        },
+        _ => gen_elem(rng, uniq, false),
     }
-    fn check(&self, _trace: &Trace, _stats: &mut Stats) -> Vec<Finding> { vec![] }
+}
+
+impl Prop for C01 {
+    fn id(&self) -> &'static str {
+        "C01"
+    }
+    fn level(&self) -> &'static str {
+        "exploration"
+    }
+    fn rule(&self) -> &'static str {
+        "one run = one random tree (depth <= 4, default nodes, suffixed siblings) and 1-6 messages: grammar-generated multi-unit messages (all seven data types, numeric literals at every integer type's bounds, channel-list / numeric-list expressions incl. empty dimensions) delivered untouched (20 %), damaged in flight by 1-3 corruptions - truncate at any byte (EOF mid-message), bit flip, delete, insert, replace, biased to quotes, '#', length digits, exponents and unit boundaries (50 %), spliced with the next message because the terminator was lost (20 %), or replaced by class-alphabet noise (10 %); handlers pull 0..n+2 parameters through all 29 conversions (10 integer types, floats, bool, bytes, str, block, character, expression, numeric list, channel list incl. tuple conversions, uom quantities, amplitude, decibel, numeric_value, derived enum, Auto). Checked per message: no panic (debug-assert+overflow-check profile and release), no -300 'Internal parser error', no non-data token handed to a handler, lexer progress, error-hook discipline, termination (watchdog). distinct_nontrivial = distinct (corruption kinds, result code, conversion kinds requested, panic?) tuples"
+    }
+    fn assumptions(&self) -> Vec<String> {
+        vec![
+            "decides only traffic the simulated controllers + transport can produce (grammar neighbourhood), not all byte strings; the repository's cargo-fuzz targets remain the tool for raw-byte coverage".into(),
+            "undefined behaviour in the unsafe float->int cast is only visible to the Miri pass of the thorough tier (tools/extra_C01.sh)".into(),
+            "a process abort (stack overflow, allocation failure) would terminate the check with a non-zero status and is reported as a harness failure, not minimised".into(),
+        ]
+    }
+    fn runs(&self, tier: Tier) -> u64 {
+        match tier {
+            Tier::Quick => 120_000,
+            Tier::Thorough => 3_000_000,
+            Tier::Tiny => 24,
+        }
+    }
+    fn required_probes(&self) -> Vec<String> {
+        let v: Vec<&str> = vec![
+            "truncated_definite_block",
+            "unterminated_string",
+            "empty_channel_dimension",
+            "mnemonic_13_or_more",
+            "non_ascii_byte",
+            "hash_at_end",
+            "integer_bound_via_float_path",
+            "splice",
+            "garbage",
+            "typed_pull_conversion_error",
+            "list_iterated",
+        ];
+        v.into_iter().map(String::from).collect()
+    }
+
+    fn gen(&self, seed: u64, run: u64, _tier: Tier) -> Trace {
+        let mut rng = Rng::new(mix(seed, "C01", run));
+        let mut trng = Rng::new(mix(seed, "C01-tree", run / 64));
+        let depth = *trng.pick(&[2usize, 3, 4]);
+        let mandated = trng.chance(1, 5);
+        let tree = gen_tree(&mut trng, mandated, depth, 3, 2);
+        let cfg = Config {
+            queue: if rng.chance(1, 2) {
+                QueueCfg::Vec
+            } else {
+                QueueCfg::Array { cap: *rng.pick(&[1usize, 4, 16]) }
+            },
+            controllers: 1,
+            tree,
+        };
+        let mut t = base_trace("C01", seed, run, "hostile", cfg.clone());
+        let tc = TreeCtx::new(&cfg.tree);
+        if tc.sim_leaves.is_empty() {
+            return t;
+        }
+        let nmsg = rng.urange(1, 6);
+        let mut uniq = 0u32;
+        let mk_msg = |rng: &mut Rng, uniq: &mut u32| -> Msg {
+            let k = *rng.pick(&[1usize, 1, 2, 3, 5, 8]);
+            let k = rng.urange(1, k);
+            let mut units = Vec::new();
+            let mut level: Vec<usize> = Vec::new();
+            for i in 0..k {
+                let leaf = pick_sim_leaf(rng, &tc).unwrap().clone();
+                let (colon, path) = spell_header(rng, &tc, &leaf, &level, i == 0, 50);
+                let np = rng.usize_below(7);
+                let params: Vec<Elem> = (0..np).map(|_| c01_elem(rng, uniq)).collect();
+                let psep: Vec<B> = (1..np).map(|_| gen_psep(rng)).collect();
+                let m = rng.usize_below(np + 3);
+                let pulls: Vec<Pull> = (0..m)
+                    .map(|_| Pull {
+                        req: rng.chance(1, 2),
+                        ty: if rng.chance(1, 8) { PullTy::Tok } else { *rng.pick(ALL_PULL_TYPES) },
+                    })
+                    .collect();
+                let query = rng.chance(1, 3);
+                let mut plan = Plan {
+                    pulls,
+                    ..Default::default()
+                };
+                if query {
+                    let (hdr, data) = gen_response_plan(rng, uniq, 2);
+                    plan.hdr = hdr;
+                    plan.data = data;
+                }
+                let u = Unit {
+                    lead: if i > 0 { gen_ws(rng, true) } else { B::new() },
+                    colon,
+                    path,
+                    query,
+                    hfault: None,
+                    hsep: if np > 0 { gen_ws(rng, false) } else { gen_ws(rng, true) },
+                    params,
+                    psep,
+                    tail: if np > 0 { gen_ws(rng, true) } else { B::new() },
+                    pfault: None,
+                    plan,
+                };
+                if let Some(l) = level_after(&tc, &level, i == 0, u.colon, &u.path) {
+                    level = l;
+                }
+                units.push(u);
+            }
+            Msg {
+                units,
+                end: B::from(*rng.pick(&["", "\n", " ", ";", "\r\n"])),
+            }
+        };
+        for _ in 0..nmsg {
+            let msg = mk_msg(&mut rng, &mut uniq);
+            let bytes = render(&msg);
+            let corrupt = match rng.below(10) {
+                0 | 1 => vec![],
+                2 | 3 | 4 | 5 | 6 => {
+                    let n = rng.urange(1, 3);
+                    gen_corruption(&mut rng, &bytes, n, None)
+                }
+                7 | 8 => {
+                    let other = render(&mk_msg(&mut rng, &mut uniq));
+                    let mut c = vec![Corrupt::Splice { tail: B(other) }];
+                    if rng.chance(1, 3) {
+                        c.extend(gen_corruption(&mut rng, &bytes, 1, None));
+                    }
+                    c
+                }
+                _ => vec![Corrupt::Garbage {
+                    bytes: B(gen_garbage(&mut rng, 40)),
+                }],
+            };
+            t.steps.push(Step::Send(SendStep {
+                ctl: 0,
+                fmt: match rng.below(4) {
+                    0 => FmtCfg::Array {
+                        cap: *rng.pick(&[0usize, 1, 8, 64, 1024]),
+                    },
+                    _ => FmtCfg::Vec,
+                },
+                msg,
+                corrupt,
+            }));
+        }
+        t
+    }
+
+    fn check(&self, trace: &Trace, stats: &mut Stats) -> Vec<Finding> {
+        struct H;
+        impl StepHandler for H {
+            fn on_send(&mut self, _world: &mut World, _before: &ModelState, i: usize, s: &SendStep, o: &SendObs, stats: &mut Stats, out: &mut Vec<Finding>) {
+                // universal invariants were already evaluated by the driver; add hook discipline
+                hook_discipline(o, i, out);
+                let b = &o.bytes;
+                let mut ck: Vec<u8> = s
+                    .corrupt
+                    .iter()
+                    .map(|c| match c {
+                        Corrupt::Truncate { .. } => 1,
+                        Corrupt::Flip { .. } => 2,
+                        Corrupt::Delete { .. } => 3,
+                        Corrupt::Insert { .. } => 4,
+                        Corrupt::Replace { .. } => 5,
+                        Corrupt::Splice { .. } => 6,
+                        Corrupt::Garbage { .. } => 7,
+                    })
+                    .collect();
+                ck.sort();
+                let code: i16 = match &o.result {
+                    Ok(()) => 0,
+                    Err(e) => e.code,
+                };
+                let mut key = ck.clone();
+                key.extend_from_slice(&code.to_le_bytes());
+                let mut tys: Vec<u8> = o
+                    .calls
+                    .iter()
+                    .flat_map(|c| c.pulls.iter())
+                    .map(|p| match p {
+                        PullObs::Tok(_) => 1,
+                        PullObs::Absent => 2,
+                        PullObs::Err(e) => 3 + (e.code.unsigned_abs() % 50) as u8,
+                        PullObs::Value(_) => 60,
+                    })
+                    .collect();
+                tys.sort();
+                tys.dedup();
+                key.extend(tys);
+                stats.state(&key);
+                for c in &s.corrupt {
+                    match c {
+                        Corrupt::Splice { .. } => {
+                            stats.probe("splice");
+                            stats.fault("F7_splice_lost_terminator");
+                        }
+                        Corrupt::Garbage { .. } => {
+                            stats.probe("garbage");
+                            stats.fault("F7_garbage");
+                        }
+                        Corrupt::Truncate { .. } => stats.fault("F7_truncate_eof_mid_message"),
+                        Corrupt::Flip { .. } => stats.fault("F7_bit_flip"),
+                        Corrupt::Delete { .. } => stats.fault("F7_byte_lost"),
+                        Corrupt::Insert { .. } => stats.fault("F7_byte_inserted"),
+                        Corrupt::Replace { .. } => stats.fault("F7_byte_replaced"),
+                    }
+                }
+                if let Err(e) = &o.result {
+                    match e.code {
+                        -161 | -160 => {
+                            if b.contains(&b'#') {
+                                stats.probe("truncated_definite_block");
+                            }
+                        }
+                        -151 => stats.probe("unterminated_string"),
+                        -112 | -144 | -134 => stats.probe("mnemonic_13_or_more"),
+                        -101 => stats.probe("non_ascii_byte"),
+                        _ => {}
+                    }
+                }
+                if b.last() == Some(&b'#') {
+                    stats.probe("hash_at_end");
+                }
+                if b.windows(2).any(|w| w == b"!!") || b.windows(3).any(|w| w == b"(@!") {
+                    stats.probe("empty_channel_dimension");
+                }
+                for c in &o.calls {
+                    for (j, p) in c.pulls.iter().enumerate() {
+                        match p {
+                            PullObs::Err(_) => stats.probe("typed_pull_conversion_error"),
+                            PullObs::Value(v) if v.starts_with("numlist") || v.starts_with("chanlist") => stats.probe("list_iterated"),
+                            _ => {}
+                        }
+                        let _ = j;
+                    }
+                }
+                if s.corrupt.is_empty() {
+                    for u in &s.msg.units {
+                        for (j, e) in u.params.iter().enumerate() {
+                            if let Elem::Dec(d) = e {
+                                if d.contains('.') && d.len() > 8 {
+                                    if let Some(p) = u.plan.pulls.get(j) {
+                                        if matches!(p.ty, PullTy::I64 | PullTy::U64 | PullTy::Usize | PullTy::Isize | PullTy::I32 | PullTy::U32) {
+                                            stats.probe("integer_bound_via_float_path");
+                                        }
+                                    }
+                                }
+                            }
+                        }
+                    }
+                }
+            }
+        }
+        let f = drive(trace, stats, &mut H);
+        if trace.run < 3 && stats.samples.is_empty() {
+            let msgs: Vec<serde_json::Value> = trace
+                .steps
+                .iter()
+                .take(4)
+                .filter_map(|s| match s {
+                    Step::Send(x) => Some(serde_json::json!({"delivered": describe_msg(x), "corruption": format!("{:?}", x.corrupt), "pulls": x.msg.units.iter().map(|u| u.plan.pulls.iter().map(|p| format!("{:?}", p.ty)).collect::<Vec<_>>()).collect::<Vec<_>>()})),
+                    _ => None,
+                })
+                .collect();
+            stats.samples.push(serde_json::to_string(&msgs).unwrap());
+        }
+        f
+    }
 }
